@@ -261,7 +261,8 @@ def run_case(case):
                 return {'evals': evals, 'violations': vio, 'obs': obs, 'sigs': sorted(set(sigs)), 'sample': sample}
         elif case['kind'] == 'multi-lf':
             nlf = r.choice([2, 2, 3])
-            sp = gen.base_spec(r.choice([128, 8192]), lfs=[{'fh_id': f'LF{j}'} for j in range(nlf)])
+            same_hdr = r.random() < 0.4    # equal (not identical) file headers
+            sp = gen.base_spec(r.choice([128, 8192]), lfs=[{'fh_id': 'LF' if same_hdr else f'LF{j}'} for j in range(nlf)])
             source = r.choice(['inline', 'inline', 'dict', 'hdf5'])
             same = r.random() < 0.6
             for lf in range(nlf):
